@@ -128,5 +128,5 @@ def run(ctx):
                                 'spec': st.fixed_dictionaries({'tm': files.threadmap(6), 'pad': st.sampled_from([0, 8]), 'recs': recs})})
     v3 = st.fixed_dictionaries({'version': st.just(3), 'config': config(), 'traces_first': st.booleans(),
                                 'spec': files.v3_spec(max_events=40, max_n=6, tids=TIDS, records_strategy=recs, log_copies=4, force_logs=True)})
-    ctx.run_given('filter', v2, prop_filter, ctx.n(250, 1500))
-    ctx.run_given('filter', v3, prop_filter, ctx.n(350, 2000))
+    ctx.run_given('filter', v2, prop_filter, ctx.n(250, 1000))
+    ctx.run_given('filter', v3, prop_filter, ctx.n(350, 1400))
